@@ -135,6 +135,8 @@ class Ctx:
         self.noop_calls = {"print"}
         self.dyn_getattr = {}   # function qualname -> contract name for getattr with computed names
         self.call_overrides = {}  # (function qualname, call text) -> contract name
+        self.expr_overrides = {}  # (function qualname, expression text) -> (contract name, [argument expressions]): an expression abstracted by an assumed contract
+        self.type_of = False      # type(obj) of a modelled object is the uninterpreted type_of(obj) (a TypeObj reference)
         self.event_calls = {}   # "logger.warning" -> contract name (calls that are otherwise dropped)
         self.structural = []
         self.macros = {}
@@ -171,6 +173,8 @@ class Ctx:
         self.noop_calls |= set(getattr(mod, "NOOP_CALLS", []))
         self.dyn_getattr.update(getattr(mod, "DYN_GETATTR", {}))
         self.call_overrides.update(getattr(mod, "CALL_OVERRIDES", {}))
+        self.expr_overrides.update(getattr(mod, "EXPR_OVERRIDES", {}))
+        self.type_of = self.type_of or bool(getattr(mod, "TYPE_OF", False))
         self.event_calls.update(getattr(mod, "EVENT_CALLS", {}))
         for sig, body in getattr(mod, "MACROS", {}).items():
             call = ast.parse(sig, mode="eval").body
@@ -547,6 +551,9 @@ class Task:
         if not self.feasible(st):
             return
         self.paths += 1
+        if self.opts.get("reach_probe"):
+            # reachability probe: 'False' must NOT follow from the assumptions collected along this path (vacuity guard)
+            self.obligations.append(Obligation(f"{self.label}: path end reachable ({'raise' if o.kind == Outcome.RAISE else 'return'})", list(st.pc) + list(st.guards), z3.BoolVal(False), self.label, list(st.trace), "reach", None))
         env = {k: v for k, v in st.locals.items() if k not in self.old_locals}
         env.update(self.old_locals)     # parameter names denote entry values; other locals their final values
         if o.kind in (Outcome.NORMAL, Outcome.RETURN):
@@ -1326,11 +1333,23 @@ class Task:
 
     def ev_cond(self, node, st):
         """evaluate a condition -> list of (state, z3 Bool, exc)"""
+        if isinstance(node, ast.BoolOp):
+            node._as_bool = True
         return [(s, truth(v) if e is None else None, e) for s, v, e in self.ev(node, st)]
 
     def ev(self, node, st):
         """-> list of (state, value, exc-name-or-None)"""
         m = getattr(self, "ex_" + type(node).__name__, None)
+        if self.ctx.expr_overrides and isinstance(node, (ast.Subscript, ast.Call, ast.BinOp, ast.Attribute)):
+            ov = self.ctx.expr_overrides.get((self.contract.source, ast.unparse(node)))
+            if ov is not None:
+                cn, argx = ov
+                res = []
+                for s2, vals, e in self.ev_many([ast.parse(x, mode="eval").body for x in argx], st):
+                    if e is not None:
+                        res.append((s2, None, e)); continue
+                    res += self.call_contract(s2, self.ctx.contracts[cn], None, vals, {}, node)
+                return res
         if m is None:
             raise Unsupported(f"expression {type(node).__name__} at {self.src.relpath}:{node.lineno}")
         return m(node, st)
@@ -1553,6 +1572,8 @@ class Task:
                 res.append((s2, None, e))
                 continue
             # result: the first operand that decides, else the last one evaluated
+            if getattr(node, "_as_bool", False):      # used as a condition: only the truth values matter
+                vals = [(t, vbool(t)) for t, _v in vals]
             t_last, val = vals[-1]
             for t, v in reversed(vals[:-1]):
                 decides = z3.Not(t) if is_and else t
@@ -1573,6 +1594,12 @@ class Task:
                 continue
             cs = []
             for op, a, b in zip(node.ops, vals, vals[1:]):
+                if isinstance(op, (ast.Is, ast.IsNot)):
+                    # identity against a class / typing construct named by a dotted path: its (uninterpreted) class constant
+                    if isinstance(a, VDotted) and isinstance(b, V) and isinstance(b.sort, RefSort):
+                        a = vref(z3.Const(f"class.{a.path}", Ref), b.sort.cls)
+                    elif isinstance(b, VDotted) and isinstance(a, V) and isinstance(a.sort, RefSort):
+                        b = vref(z3.Const(f"class.{b.path}", Ref), a.sort.cls)
                 if isinstance(op, (ast.In, ast.NotIn)):
                     c = self.contains(s2, a, b, node)
                     cs.append(z3.Not(c) if isinstance(op, ast.NotIn) else c)
@@ -2227,6 +2254,8 @@ class Task:
                 res.append((s2, vals[0], None))       # list(seq): a copy (sequences are values here)
             elif name == "type" and len(vals) == 1 and isinstance(vals[0], V) and vals[0].sort == NONE:
                 res.append((s2, vref(z3.Const("class.NoneType", Ref), "TypeObj"), None))
+            elif name == "type" and len(vals) == 1 and self.ctx.type_of and isinstance(vals[0], V) and isinstance(vals[0].sort, RefSort):
+                res.append((s2, vref(TYPE_OF(vals[0].z), "TypeObj"), None))
             elif name == "type" and len(vals) == 1:
                 res.append((s2, VOpaque(f"type({vals[0]})"), None))
             elif name == "abs" and is_num(vals[0]):
@@ -2322,6 +2351,7 @@ STR_JOIN = z3.Function("str_join", z3.StringSort(), z3.IntSort(), z3.ArraySort(z
 FRESH = z3.Function("fresh_object", Ref, z3.BoolSort())
 CALLABLE = z3.Function("is_callable", Ref, z3.BoolSort())
 ISINSTANCE = z3.Function("isinstance", Ref, Ref, z3.BoolSort())
+TYPE_OF = z3.Function("type_of", Ref, Ref)
 
 
 def _base_name(attr_node):
